@@ -177,9 +177,14 @@ def load_known():
     d = os.path.join(VERIF, "known_findings")
     if os.path.isdir(d):
         files += [os.path.join(d, f) for f in sorted(os.listdir(d)) if f.endswith(".json")]
+    seen = set()
     for p in files:
         if os.path.exists(p):
-            out += json.load(open(p)).get("findings", [])
+            for k in json.load(open(p)).get("findings", []):
+                key = (k.get("property"), k.get("signature"))
+                if key not in seen:
+                    seen.add(key)
+                    out.append(k)
     return out
 
 
